@@ -656,8 +656,13 @@ def run_pred(c):
             # exact check that the moved point is off the circle
             if abs(np.sum((pts[3] - [cx, cy]) ** 2) - rr**2) < 1e-9:
                 raise Skip("still on circle")
-        r, f = call(site, is_cocircular, *[two(P(p)) if i == 0 else P(p, s[i % 2]) for i, p in enumerate(pts)])
+        cargs = [two(P(p)) if i == 0 else P(p, s[i % 2]) for i, p in enumerate(pts)]
+        r, f = call(site, is_cocircular, *cargs)
         expect(r, f)
+        # the relation does not depend on the order in which the four points are given
+        for order in ((3, 2, 1, 0), (1, 3, 0, 2), (2, 0, 3, 1)):
+            r, f = call(site + ":other-order", is_cocircular, *[cargs[i] for i in order])
+            expect(r, f, tag=":other-order")
         return ck.result()
     if cfg == "cocircular3":
         # a circle in a plane of 3-space: centre + r (cos u + sin v) with a rational orthonormal pair u, v and rational points of
@@ -713,6 +718,10 @@ def run_pred(c):
         objs = [cls(e * (s[i % 2])) for i, e in enumerate(els)]
         r, f = call(site, fn, two(objs[0]), *objs[1:])
         expect(r, f)
+        for order in ((3, 2, 1, 0), (1, 3, 0, 2), (2, 3, 0, 1)):
+            oo = [two(objs[0])] + objs[1:]
+            r, f = call(site + ":other-order", fn, *[oo[i] for i in order])
+            expect(r, f, tag=":other-order")
         r, f = call(site + ":three", fn, *objs[:3])
         expect(r, f, True, ":three")
         if not truth:
@@ -737,6 +746,10 @@ def run_pred(c):
             objs = [Point(e * s[i % 2]) for i, e in enumerate(els)]
             r, f = call(site, is_coplanar, two(objs[0]), *objs[1:])
             expect(r, f)
+            for order in ((3, 2, 1, 0), (1, 3, 0, 2), (2, 3, 0, 1)):
+                oo = [two(objs[0])] + objs[1:]
+                r, f = call(site + ":other-order", is_coplanar, *[oo[i] for i in order])
+                expect(r, f, tag=":other-order")
             fifth = pts[0] - (pts[1] - pts[0]) + 3 * (pts[2] - pts[0])
             r, f = call(site + ":five", is_coplanar, *objs, Point(fifth))
             expect(r, f, truth, ":five")
